@@ -140,6 +140,7 @@ def run(ctx):
     pe = PredEval(prog)
     c12.MAP_EVAL["pe"] = pe
     cls = classes.class_fns(prog)
+    c12.MAP_EVAL["cls"] = cls
     c12.mark_predicates(prog)
     feas = [s for s in S if kvp.feasible(s, pe, cls)]
     on = [s for s in feas if any(a == ("cfg", "get_fixed_old_kar_order") and v is True for a, v in s.atoms)]
